@@ -883,6 +883,10 @@ func Run(r *vk.Run) {
 		i := i
 		r.Guard(map[string]any{"tip_withheld_case": i}, func() { runFullTipWithheld(r, keys, i) })
 	}
+	for i := 0; i < r.N(6, 24); i++ {
+		i := i
+		r.Guard(map[string]any{"apply_window_case": i}, func() { runFullApplyWindow(r, keys, i) })
+	}
 }
 
 // waitD waits (generously) until the reported DA-included height equals want. It returns false if that does not
